@@ -155,6 +155,22 @@ func HarnessC10BaseGunShoot() {
 		vAssume(tag == "")
 		u.Path = ""
 	}
+	// the spelling of the ammo's request URI: a path written with an escape net/url would not produce
+	// itself (`/a/b%2Fc`: Path "/a/b/c" next to RawPath), a bare trailing `?`, user info, a fragment
+	spelling := vConcretize(vNondetInt("uriSpelling", 0, 3))
+	if !emptyPath {
+		switch spelling {
+		case 1:
+			u.Path, u.RawPath = "/a/b/c", "/a/b%2Fc"
+		case 2:
+			u.RawQuery, u.ForceQuery = "", true
+		case 3:
+			u.Opaque = ""
+			u.Fragment = "frag"
+		}
+	}
+	wantURI := u.RequestURI()
+	wantQuery := u.RawQuery
 	req := &http.Request{Method: "POST", URL: u, Header: hdr, Host: host, Body: body}
 	invalid := vNondetBool("invalid")
 	am := &hHTTPAmmo{req: req, sample: netsample.Acquire(tag), invalid: invalid, id: 7}
@@ -215,7 +231,8 @@ func HarnessC10BaseGunShoot() {
 		vCheck("H3.host.defaults.to.target", cl.host == "target.example")
 	}
 	vCheck("H3.method.kept", cl.got.Method == "POST")
-	vCheck("H3.path.query.kept", cl.got.URL.Path == u.Path && cl.got.URL.RawQuery == "q=1")
+	vCheck("H3.path.query.kept", cl.got.URL.Path == u.Path && cl.got.URL.RawQuery == wantQuery)
+	vCheck("H3.request.uri.as.written", cl.got.URL.RequestURI() == wantURI)
 	vCheck("H3.body.bytes.kept", cl.sentOK && string(cl.sent) == "payload")
 	if logMode == 0 || logMode == 1 {
 		// (dumping / answ logging hands the client an equal copy instead of the ammo's own reader)
